@@ -24,6 +24,10 @@ CHECKS = {
    "Runtime monitor over seeded simulator executions of the real gossip code: after every scheduler step an oracle compares every (observer, owner) view against the owner's recorded write history (authenticity, completeness at the reported version, monotone versions, own state untouched by received messages). Held on the explored executions only.",
    "Sequentially consistent scheduler; the overlay shim only re-exports unexported functions; write history obtained by observing LocalNode() after each local action.",
    "runtime monitoring: trace oracle over simulated gossip executions (loss, duplication, delay, truncation, relay)", "4/C02"),
+ "C16": (E2, "fault_enumeration",
+   "Runtime monitor on a fully assembled real node under the race detector: a finite list of connection-ending faults (client disconnects, go-away then close, go-away with siblings, FIN/RST cuts through an interposed proxy, server-side shedding, server shutdown, token expiry with and without disconnect-on-expiry) is run one by one and in seeded sequences over 1-24 concurrent upstreams with requests in flight; at every quiescent point the registry, the routing-table entry, the published gossip entries and the session count must equal the connections the harness holds open, and be empty at the end; expiring tokens must be closed inside [T-1.1 s, T+5 s] and not otherwise.",
+   "Quiescence is polled (20 s); the expiry window is the only wall-clock verdict and is generous; rebalance parameters set through a verif-tagged setter.",
+   "runtime monitoring: enumerated fault list with a four-view equality oracle at quiescent points + race detector", "4/C16"),
  "C17": (E1, "exploration",
    "Runtime monitor: seeded operation sequences on the real clusterState checked after every operation against a last-write-wins reference model, plus lagging/fresh observer synchronisation in the simulator.",
    "Reserved _internal: keys are not written by callers; single goroutine.",
